@@ -149,10 +149,11 @@ Definition http_code (cls : string) : Z :=
 
 Definition ident := Z.
 Definition name := Z.
-Inductive mt := MProp | MRange | MColl | MList | MFile | MBlob.
+Inductive mt := MProp | MRange | MColl | MList | MFile | MBlob | MRel | MARel.
 Definition mt_eqb (a b : mt) : bool :=
   match a, b with
-  | MProp, MProp | MRange, MRange | MColl, MColl | MList, MList | MFile, MFile | MBlob, MBlob => true
+  | MProp, MProp | MRange, MRange | MColl, MColl | MList, MList | MFile, MFile | MBlob, MBlob
+  | MRel, MRel | MARel, MARel => true
   | _, _ => false
   end.
 (* File.value : None | path string;  Blob.value : None | bytes (token) *)
@@ -214,7 +215,7 @@ Definition meth_name (m : meth) : string :=
   match m with MGet => "GET" | MHead => "HEAD" | MPost => "POST" | MPut => "PUT" | MDelete => "DELETE"
              | MPatch => "PATCH" | MOptions => "OPTIONS" | MOther => "FOO" end.
 Inductive accept := AccJson | AccXml | AccTextXml | AccNone.
-Inductive idarg := IdOk (i : ident) | IdBad | IdAbsent.
+Inductive idarg := IdOk (i : ident) | IdBad | IdNonAscii | IdAbsent.
 Inductive patharg := PathOk (p : list name) | PathBad | PathAbsent.
 Inductive qint := QAbsent | QBad | QHuge | QNat (n : nat).
 Inductive qdec := QdOk | QdBad400 | QdBad422.
@@ -275,7 +276,12 @@ Fixpoint find_route (rs : list (string * list string * endpoint)) (rule : string
 (* DictObjectStore.get / _get_obj_ts: kind test, NotFound otherwise *)
 Definition http {A} (cls : string) : result A := Exc (EHttp cls).
 Definition need_id (a : idarg) : result ident :=
-  match a with IdOk i => Ok i | IdBad => guard H_b64_decode (Exc EBinascii) (Exc EBinascii) | IdAbsent => Ok 0 end.
+  match a with
+  | IdOk i => Ok i
+  | IdBad => guard H_b64_decode (Exc EBinascii) (Exc EBinascii)
+  | IdNonAscii => guard H_b64_decode (Exc EValue) (Exc EValue)   (* urlsafe_b64decode of a non-ASCII str *)
+  | IdAbsent => Ok 0
+  end.
 Definition get_shell (s : state) (i : ident) : result shell :=
   match zlookup i (st_objs s) with Some (OShell x) => Ok x | _ => http "NotFound" end.
 Definition get_sm (s : state) (i : ident) : result submodel :=
@@ -546,7 +552,7 @@ Definition need_path (a : patharg) : result (list name) :=
   end.
 (* url_args: all converters of the matched rule run before the handler *)
 Definition conv_id (a : idarg) : result unit :=
-  match a with IdBad => do _ <- need_id a; Ok tt | _ => Ok tt end.
+  match a with IdBad | IdNonAscii => do _ <- need_id a; Ok tt | _ => Ok tt end.
 Definition convert_args (r : request) : result unit :=
   do _ <- conv_id (r_aas r); do _ <- conv_id (r_sm r); do _ <- conv_id (r_cd r);
   do _ <- need_path (r_path r); do _ <- conv_id (r_qt r); Ok tt.
